@@ -65,6 +65,11 @@ type Palette struct {
 	// NoSub forbids subtype labels altogether.
 	NameType map[string]int
 	NoSub    bool
+	// LooseOutputs: output lists of struct forms may contain several
+	// type-only values of one type that differ by subtype. The library keys
+	// type-only outputs by type, so C06 counts this as ill-formed; C01 / C13
+	// quantify over all converter sets and include it.
+	LooseOutputs bool
 }
 
 // name draws a name usable for type t (any name unless NameType is set).
@@ -147,7 +152,10 @@ func withDyn(g G, l Label) Label {
 func GenForm(g G) string { return Pick(g, []string{FormPos, FormStruct, FormStruct, FormPtr}) }
 
 // sideOK checks the well-formedness rule of C06 for adding l to labels.
-func sideOK(labels []Label, l Label, form string, output bool, allowPosRepeat bool) bool {
+func sideOK(labels []Label, l Label, form string, output bool, allowPosRepeat bool, loose ...bool) bool {
+	if len(loose) > 0 && loose[0] {
+		output = false // key type-only outputs by (type, subtype) like inputs
+	}
 	for _, o := range labels {
 		if form == FormPos {
 			if !allowPosRepeat && o.Type == l.Type {
@@ -184,7 +192,7 @@ func GenSide(g G, pal Palette, n int, form string, output bool, allowPosRepeat b
 					l.Tag = true
 				}
 			}
-			ok = sideOK(labels, l, form, output, allowPosRepeat)
+			ok = sideOK(labels, l, form, output, allowPosRepeat, pal.LooseOutputs)
 		}
 		if !ok {
 			break
@@ -228,6 +236,7 @@ func GenFunc(g G, pal Palette, id int, o GenFuncOpts) FuncSpec {
 		// built value sets: type-only values are looked up by (type, subtype)
 		// in the callback, keep them unique by type on both sides.
 		fs.In = uniqTyped(fs.In)
+		fs.Out = uniqTyped(fs.Out)
 		for i := range fs.In {
 			fs.In[i].Tag = false
 		}
@@ -402,8 +411,21 @@ func (b *Builder) Produce(p Label, depth int, maxConvIn int) {
 	// optional extra output
 	if g.Pct(25) {
 		extra := GenSide(g, b.Pal, 1, fs.OutForm, true, false)
-		if len(extra) == 1 && sideOK(fs.Out, extra[0], fs.OutForm, true, false) {
+		if len(extra) == 1 && sideOK(fs.Out, extra[0], fs.OutForm, true, false, b.Pal.LooseOutputs && !fs.Built) {
 			fs.Out = append(fs.Out, extra[0])
+		}
+		if b.Pal.LooseOutputs && !fs.Built && fs.OutForm != FormPos && !src.Named() && g.Pct(50) {
+			// a sibling type-only output of the same type under another subtype,
+			// declared before or after the one that is needed
+			sib := src
+			sib.Sub = Pick(g, []string{"", "s", "t"})
+			if sib.Sub != src.Sub && sideOK(fs.Out, sib, fs.OutForm, true, false, true) {
+				if g.Bool() {
+					fs.Out = append(fs.Out, sib)
+				} else {
+					fs.Out = append([]Label{sib}, fs.Out...)
+				}
+			}
 		}
 	}
 	nin := g.Int(0, maxConvIn)
